@@ -537,9 +537,6 @@ class spec_class:
                 methods[method.method_name] = method
         self.register_methods(spec_cls, methods)
 
-        # Finalize metadata and remove bootstrapper from class.
-        self._publish_metadata(spec_cls, metadata, final=True)
-
         # Until the first instantiation removes it, the lazy-bootstrap `__new__`
         # wrapper advertises what the class would show without it.
         wrapper = spec_cls.__dict__.get("__new__")
@@ -551,6 +548,10 @@ class spec_class:
                 if orig_new
                 else _signature_without_new(spec_cls)
             )
+
+        # Finalize metadata and remove bootstrapper from class (last: it is what
+        # other threads wait for).
+        self._publish_metadata(spec_cls, metadata, final=True)
 
     @staticmethod
     def _publish_metadata(spec_cls: type, metadata: SpecClassMetadata, final: bool):
